@@ -123,3 +123,12 @@ Require Copia.Proofs.TieServeLoop.
 Theorem C13_dispatch_is_translation_of_source : TieServeLoop.serve_loop_is_translation.
 Proof. exact TieServeLoop.serve_loop_is_translation_holds. Qed.
 Print Assumptions C13_dispatch_is_translation_of_source.
+
+(** What the client puts on the wire is the translation of hub.rs `HubClient::put` / `HubClient::list` as the source has
+    them now (one Put request carrying the file's length and the given hash, then the file's bytes, then one reply; List
+    then one reply), and - served by the sequential handler - that request is the step `client.put(..)` stands for in the
+    translation of `hub_sync` (Gen/HubWireClientGen.v, Proofs/TieHubWireClient.v). *)
+Require Copia.Proofs.TieHubWireClient.
+Theorem C13_client_wire_is_translation_of_source : TieHubWireClient.hub_wire_client_is_translation.
+Proof. exact TieHubWireClient.hub_wire_client_is_translation_holds. Qed.
+Print Assumptions C13_client_wire_is_translation_of_source.
